@@ -522,9 +522,12 @@ package service
 //@ vars (keeper.Keeper).IterateServiceDefinitions: k=github.com/irismod/service/keeper.Keeper#0 ctx=github.com/cosmos/cosmos-sdk/types.Context#0 op=func#0 definition=github.com/irismod/service/types.ServiceDefinition#0 stop=bool#0 store=github.com/cosmos/cosmos-sdk/types.KVStore#0 iterator=github.com/cosmos/cosmos-sdk/types.Iterator#0 definition=github.com/irismod/service/types.ServiceDefinition#1 stop=bool#1
 //@ vars (keeper.Keeper).IterateWithdrawAddresses: k=github.com/irismod/service/keeper.Keeper#0 ctx=github.com/cosmos/cosmos-sdk/types.Context#0 op=func#0 owner=github.com/cosmos/cosmos-sdk/types.AccAddress#0 withdrawAddress=github.com/cosmos/cosmos-sdk/types.AccAddress#1 stop=bool#0 store=github.com/cosmos/cosmos-sdk/types.KVStore#0 iterator=github.com/cosmos/cosmos-sdk/types.Iterator#0 ownerAddress=github.com/cosmos/cosmos-sdk/types.AccAddress#2 withdrawAddress=github.com/cosmos/cosmos-sdk/types.AccAddress#3 stop=bool#1
 //@ props C19 C18 C05 C09 C15
+//@ requires [C19] a3_withdraw_addresses_are_recorded_for_present_owners: forall o Bytes :: {raw[KWAddr(o)]} raw[KWAddr(o)] != bnil ==> len(o) > 0
 //@ loop IterateServiceDefinitions.0 invariant pos_in_range: 0 <= iterator_pos && iterator_pos <= itCount(iterator_snap, iterator_pfx)
 //@ loop IterateServiceDefinitions.0 invariant snapshot: iterator_snap == raw && iterator_pfx == PAllDef
 //@ loop IterateServiceDefinitions.0 invariant listed_so_far: outer_definitions == defsIt(iterator_snap, iterator_pfx, iterator_pos)
+//@ loop IterateServiceDefinitions.0 invariant maps_still_empty: (forall s Str :: {mapHas_Map_Str_Bytes(outer_withdrawAddresses, s)} !mapHas_Map_Str_Bytes(outer_withdrawAddresses, s)) && (forall s Str :: {mapHas_Map_Str_RequestContext(outer_requestContexts, s)} !mapHas_Map_Str_RequestContext(outer_requestContexts, s))
+//@ loop IterateServiceBindings.0 invariant maps_still_empty: (forall s Str :: {mapHas_Map_Str_Bytes(outer_withdrawAddresses, s)} !mapHas_Map_Str_Bytes(outer_withdrawAddresses, s)) && (forall s Str :: {mapHas_Map_Str_RequestContext(outer_requestContexts, s)} !mapHas_Map_Str_RequestContext(outer_requestContexts, s))
 //@ loop IterateServiceBindings.0 invariant pos_in_range: 0 <= iterator_pos && iterator_pos <= itCount(iterator_snap, iterator_pfx)
 //@ loop IterateServiceBindings.0 invariant snapshot: iterator_snap == raw && iterator_pfx == PAllBind
 //@ loop IterateServiceBindings.0 invariant listed_so_far: outer_bindings == bindsIt(iterator_snap, iterator_pfx, iterator_pos) && outer_definitions == defsIt(raw, PAllDef, itCount(raw, PAllDef))
@@ -533,6 +536,13 @@ package service
 //@ loop IterateWithdrawAddresses.0 invariant lists_kept: outer_bindings == bindsIt(raw, PAllBind, itCount(raw, PAllBind)) && outer_definitions == defsIt(raw, PAllDef, itCount(raw, PAllDef))
 //@ loop IterateWithdrawAddresses.0 invariant visited_owners_exported: forall o Bytes :: {raw[KWAddr(o)]} raw[KWAddr(o)] != bnil && itIdx(iterator_snap, iterator_pfx, KWAddr(o)) < iterator_pos ==>
 //@      mapHas_Map_Str_Bytes(outer_withdrawAddresses, bech32(o)) && mapGet_Map_Str_Bytes(outer_withdrawAddresses, bech32(o)) == raw[KWAddr(o)]
+//@ loop IterateWithdrawAddresses.0 invariant context_map_still_empty: forall s Str :: {mapHas_Map_Str_RequestContext(outer_requestContexts, s)} !mapHas_Map_Str_RequestContext(outer_requestContexts, s)
+//@ loop IterateWithdrawAddresses.0 invariant only_stored_owners_exported: forall s Str :: {mapHas_Map_Str_Bytes(outer_withdrawAddresses, s)} mapHas_Map_Str_Bytes(outer_withdrawAddresses, s) ==>
+//@      s == bech32(bech32Decode(s)) && raw[KWAddr(bech32Decode(s))] != bnil
+//@ loop IterateRequestContexts.0 invariant only_stored_owners_exported_kept: forall s Str :: {mapHas_Map_Str_Bytes(outer_withdrawAddresses, s)} mapHas_Map_Str_Bytes(outer_withdrawAddresses, s) ==>
+//@      s == bech32(bech32Decode(s)) && raw[KWAddr(bech32Decode(s))] != bnil
+//@ loop IterateRequestContexts.0 invariant only_stored_contexts_exported: forall s Str :: {mapHas_Map_Str_RequestContext(outer_requestContexts, s)} mapHas_Map_Str_RequestContext(outer_requestContexts, s) ==>
+//@      s == hexstr(hexDecode(s)) && raw[KCtx(hexDecode(s))] != bnil
 //@ loop IterateRequestContexts.0 invariant pos_in_range: 0 <= iterator_pos && iterator_pos <= itCount(iterator_snap, iterator_pfx)
 //@ loop IterateRequestContexts.0 invariant snapshot: iterator_snap == raw && iterator_pfx == PAllCtx
 //@ loop IterateRequestContexts.0 invariant lists_kept: outer_bindings == bindsIt(raw, PAllBind, itCount(raw, PAllBind)) && outer_definitions == defsIt(raw, PAllDef, itCount(raw, PAllDef))
@@ -548,6 +558,10 @@ package service
 //@ ensures [C19] exports_every_context_under_the_hex_form_of_its_id: forall id Bytes :: {raw[KCtx(id)]} raw[KCtx(id)] != bnil ==>
 //@      mapHas_Map_Str_RequestContext(result.RequestContexts, hexstr(id)) && mapGet_Map_Str_RequestContext(result.RequestContexts, hexstr(id)) == ctxOf(raw, id)
 
+//@ ensures [C19] exports_no_other_withdraw_address: forall s Str :: {mapHas_Map_Str_Bytes(result.WithdrawAddresses, s)} mapHas_Map_Str_Bytes(result.WithdrawAddresses, s) ==>
+//@      s == bech32(bech32Decode(s)) && raw[KWAddr(bech32Decode(s))] != bnil
+//@ ensures [C19] exports_no_other_context: forall s Str :: {mapHas_Map_Str_RequestContext(result.RequestContexts, s)} mapHas_Map_Str_RequestContext(result.RequestContexts, s) ==>
+//@      s == hexstr(hexDecode(s)) && raw[KCtx(hexDecode(s))] != bnil
 //@ func InitGenesis
 //@ vars service.InitGenesis: ctx=github.com/cosmos/cosmos-sdk/types.Context#0 k=github.com/irismod/service/keeper.Keeper#0 data=github.com/irismod/service/types.GenesisState#0 err=error#0 definition=github.com/irismod/service/types.ServiceDefinition#0 binding=github.com/irismod/service/types.ServiceBinding#0 err=error#1 ownerAddressStr=string#0 withdrawAddress=[]byte#0 ownerAddress=github.com/cosmos/cosmos-sdk/types.AccAddress#0 reqContextIDStr=string#1 requestContext=*github.com/irismod/service/types.RequestContext#0 requestContextID=[]byte#1
 //@ props C19 C05 C09 C15
